@@ -140,10 +140,38 @@ def _const(node, typ):
     return None
 
 
+def is_stub(fn: ast.FunctionDef) -> bool:
+    a = fn.args
+    if fn.decorator_list or a.posonlyargs or a.kwonlyargs or a.defaults:
+        return False
+    if [x.arg for x in a.args] != ["self"] or a.vararg is None or a.kwarg is None:
+        return False
+    body = list(fn.body)
+    if body and isinstance(body[0], ast.Expr) and isinstance(body[0].value, ast.Constant) and isinstance(body[0].value.value, str):
+        body = body[1:]
+    if len(body) != 1 or not isinstance(body[0], ast.Raise) or body[0].cause is not None:
+        return False
+    e = body[0].exc
+    return (
+        isinstance(e, ast.Call)
+        and _is_name(e.func, "NotImplementedError")
+        and len(e.args) == 1
+        and not e.keywords
+        and _const(e.args[0], str) is not None
+    )
+
+
 def parse_method(fn: ast.FunctionDef) -> dict:
     """Everything `mirrors` looks at, read off the AST of one generated method."""
     m: dict[str, Any] = {"name": fn.name, "lineno": fn.lineno}
     a = fn.args
+    if is_stub(fn):
+        # `def Op(self, *args, **kwargs): raise NotImplementedError("…")` — shadows an inherited method of an
+        # operator that is deprecated from this class's version on (proposed fix C17-F1)
+        m.update(pos=[], vararg=None, kwonly=[], call=["", 0, ""], op_name="", fwd_inputs=[], fwd_attrs=[],
+                 uses_prepare=False, shape_ok=True, stub=True)
+        return m
+    m["stub"] = False
     shape_ok = not fn.decorator_list and not a.posonlyargs and a.kwarg is None
     shape_ok = shape_ok and bool(a.args) and a.args[0].arg == "self"
     pos = a.args[1:]
@@ -458,6 +486,32 @@ def strip_positions(classes: list[dict]) -> dict:
 UNGENERATED_DOMAINS = ["ai.onnx.preview.training"]
 
 
+def dep_live_cells(classes: list[dict], schemas: list[dict]) -> list[list]:
+    """(domain, class version, op) cells where the schema in force is deprecated and attribute lookup still
+    reaches a live (non-stub) definition of an older version — finding C17-F1; empty once opgen emits stubs."""
+    out = []
+    by = {}
+    for s in schemas:
+        by.setdefault((s["domain"], s["name"]), []).append(s)
+    for (d, n), ss in sorted(by.items()):
+        if not any(s["deprecated"] for s in ss):
+            continue
+        for c in sorted(classes, key=lambda c: (c["domain"], c["version"])):
+            if c["domain"] != d:
+                continue
+            inforce = [s for s in ss if s["since"] <= c["version"]]
+            if not inforce:
+                continue
+            s0 = max(inforce, key=lambda s: s["since"])
+            if not s0["deprecated"]:
+                continue
+            cands = [(c2["version"], m) for c2 in classes if c2["domain"] == d and c2["version"] <= c["version"]
+                     for m in c2["methods"] if m["name"] == n]
+            if cands and not max(cands, key=lambda t: t[0])[1].get("stub"):
+                out.append([d, c["version"], n])
+    return out
+
+
 def extract_all(repo: Path | None = None) -> dict:
     repo = repo or core.REPO
     classes = extract_classes(repo)
@@ -515,7 +569,7 @@ def L_method(m: dict) -> str:
     cn, cv, cd = m["call"]
     return (
         f"⟨{enc(m['name'])}, ({enc(cn)}, {cv}, {enc(cd)}), {enc(m['op_name'])}, {pos}, {va}, {kwo}, {fi}, {fa}, "
-        f"{'true' if m['uses_prepare'] else 'false'}, {'true' if m['shape_ok'] else 'false'}⟩"
+        f"{'true' if m['uses_prepare'] else 'false'}, {'true' if m['shape_ok'] else 'false'}, {'true' if m.get('stub') else 'false'}⟩"
     )
 
 
@@ -609,6 +663,10 @@ def emit_lean(data: dict, outdir: Path | None = None) -> dict:
         + "\n\n/-- domains with schemas in onnx.defs for which no class is generated (documented exception) -/\n"
         + "def ungeneratedDomains : List Nat := "
         + L_list([str(enc(d)) for d in ungenerated])
+        + "\n\n/-- finding C17-F1: cells (domain, class version, operator) where a deprecated schema is in force and a live\n"
+        + "older definition is still inherited; `deprecatedLive_exact` checks each entry, the grid checks there is no other -/\n"
+        + "def deprecatedLive : List (Nat × Nat × Nat) := "
+        + L_list([f"({enc(d)}, {v}, {enc(n)})" for d, v, n in dep_live_cells(data["classes"], data["schemas"])])
         + "\n\n/-- per domain, every operator name occurring in a schema or as a generated method -/\n"
         + "def opNames : List (Nat × List Nat) := "
         + L_list([f"({enc(d)}, {L_list([str(enc(n)) for n in sorted(names_by_dom[d])])})" for d in all_doms], per_line=True)
@@ -629,7 +687,7 @@ def emit_lean(data: dict, outdir: Path | None = None) -> dict:
                 + "import OV.Gen.C17Tables\nnamespace OV.Gen.C17\nopen OV.C17\n\n"
                 + f"/-- domain {d!r}: {sl[0]} … {sl[-1]} -/\n"
                 + f"def grid{k} : Nat × List Nat := ({enc(d)}, {L_list([str(enc(n)) for n in sl])})\n\n"
-                + f"theorem grid{k}_ok : gridOk schemas classes ungeneratedDomains grid{k}.1 grid{k}.2 = true := by decide +kernel\n\n"
+                + f"theorem grid{k}_ok : gridOk schemas classes ungeneratedDomains deprecatedLive grid{k}.1 grid{k}.2 = true := by decide +kernel\n\n"
                 + "end OV.Gen.C17\n"
             )
             k += 1
@@ -640,7 +698,7 @@ def emit_lean(data: dict, outdir: Path | None = None) -> dict:
         + "/-- the chunks, in order, cover `opNames` -/\n"
         + "def gridChunks : List (Nat × List Nat) := "
         + L_list([f"grid{i}" for i in range(k)])
-        + "\n\ntheorem gridChunks_ok : ∀ g ∈ gridChunks, gridOk schemas classes ungeneratedDomains g.1 g.2 = true := by\n"
+        + "\n\ntheorem gridChunks_ok : ∀ g ∈ gridChunks, gridOk schemas classes ungeneratedDomains deprecatedLive g.1 g.2 = true := by\n"
         + "  intro g hg\n  simp only [gridChunks, List.mem_cons, List.mem_nil_iff, or_false] at hg\n"
         + "  rcases hg with "
         + " | ".join(["rfl"] * k)
@@ -669,6 +727,11 @@ def emit_lean(data: dict, outdir: Path | None = None) -> dict:
         + "theorem classes_generated : classes.all (fun c => !ungeneratedDomains.contains c.domain) = true := by decide +kernel\n\n"
         + "theorem schemas_have_class : schemas.all (fun s => ungeneratedDomains.contains s.domain ||\n"
         + "    classes.any (fun c => c.domain == s.domain && c.version == s.since)) = true := by decide +kernel\n\n"
+        + "/-- every listed cell really is one: deprecated schema in force, live inherited method binding another schema -/\n"
+        + "theorem deprecatedLive_exact : deprecatedLive.all (fun x => depLiveWitness schemas classes x.1 x.2.1 x.2.2) = true := by decide +kernel\n\n"
+        + "/-- every generated method forwards each positional parameter (then `*vararg`) through `_prepare_inputs` in order and\n"
+        + "each keyword-only parameter as `kw=kw` (stubs forward nothing) -/\n"
+        + "theorem forwarding_ok : classes.all (fun c => c.methods.all forwardsOwnParams) = true := by decide +kernel\n\n"
         + "end OV.Gen.C17\n"
     )
     changed = {}
